@@ -208,6 +208,13 @@ Proof. exact C20.Proofs.no_trap_index_get. Qed.
 Theorem no_trap_subr_biased_index : forall v bias, i16 v -> 0 <= bias <= 32768 -> subr_biased_index v bias <> None.
 Proof. exact C20.Proofs.no_trap_subr_biased_index. Qed.
 
+(* ---- COLR variable records: the variation index, both branches (with / without DeltaSetIndexMap) ---- *)
+Theorem no_trap_colr_var_index : forall has_map base i, colr_var_index has_map base i <> None.
+Proof. exact C20.Proofs.no_trap_colr_var_index. Qed.
+Theorem colr_var_index_value : forall base i, 0 <= base <= 4294967295 -> 0 <= i < 16 -> base + i <= 4294967295 ->
+  colr_var_index true base i = Some (base + i) /\ colr_var_index false base i = Some ((base + i) mod 65536).
+Proof. exact C20.Proofs.colr_var_index_value. Qed.
+
 Print Assumptions no_trap_floor.
 Print Assumptions no_trap_round.
 Print Assumptions no_trap_ceil.
@@ -279,3 +286,5 @@ Print Assumptions no_trap_link_score.
 Print Assumptions no_trap_derived_constant.
 Print Assumptions no_trap_index_get.
 Print Assumptions no_trap_subr_biased_index.
+Print Assumptions no_trap_colr_var_index.
+Print Assumptions colr_var_index_value.
